@@ -278,7 +278,8 @@ def run_case(desc):
         classes.append("write-through-probed")
         for res in results:
             keep = np.array(res.values, copy=True)
-            # forward: write into the result
+            # forward: write into the result (it must be an array of its own that can be written to)
+            require(bool(getattr(res.values, "flags", None) is not None and res.values.flags.writeable), "result-values-read-only", f"{op}: the result's values cannot be written to (a read-only view of something else)")
             res.values[...] = SENT
             k = same_snap(before, snap_all(inputs))
             require(k is None, "result-values-alias-input", f"{op}: writing into the result changed input '{k}' (dims {xl}, key {desc.get('sel')})")
